@@ -155,6 +155,16 @@ func (r *Recorder) Class(c string, n int64) {
 	r.mu.Unlock()
 }
 
+// Count adds n evaluations that are not rapid cases (enumerations, scans).
+func (r *Recorder) Count(n int64, ntHashes ...uint64) {
+	r.mu.Lock()
+	r.Evaluations += n
+	for _, h := range ntHashes {
+		r.nt[h] = struct{}{}
+	}
+	r.mu.Unlock()
+}
+
 func (r *Recorder) SetExtra(k string, v any) {
 	r.mu.Lock()
 	r.Extra[k] = v
